@@ -290,6 +290,68 @@ impl AbsPathInterner {
     }
 }
 
+// Read-only accessors used by the verification harness (built only with `--cfg az65_verif`).
+#[cfg(az65_verif)]
+impl BytesRef {
+    /// (address, length) of the interned slice this handle points at
+    pub fn verif_raw(&self) -> (usize, usize) {
+        (self.0.data as usize, self.0.len)
+    }
+}
+
+#[cfg(az65_verif)]
+impl BytesInterner {
+    /// (address, capacity, length) of every backing buffer, oldest first
+    pub fn verif_buffers(&self) -> Vec<(usize, usize, usize)> {
+        self.buffers
+            .iter()
+            .map(|b| (b.as_ptr() as usize, b.capacity(), b.len()))
+            .collect()
+    }
+}
+
+#[cfg(az65_verif)]
+impl StrRef {
+    pub fn verif_raw(&self) -> (usize, usize) {
+        self.0.verif_raw()
+    }
+}
+
+#[cfg(az65_verif)]
+impl StrInterner {
+    pub fn verif_buffers(&self) -> Vec<(usize, usize, usize)> {
+        self.inner.verif_buffers()
+    }
+}
+
+#[cfg(az65_verif)]
+impl PathRef {
+    pub fn verif_raw(&self) -> (usize, usize) {
+        self.0.verif_raw()
+    }
+}
+
+#[cfg(az65_verif)]
+impl PathInterner {
+    pub fn verif_buffers(&self) -> Vec<(usize, usize, usize)> {
+        self.inner.verif_buffers()
+    }
+}
+
+#[cfg(az65_verif)]
+impl MetaRef {
+    pub fn verif_raw(&self) -> (usize, usize) {
+        self.0.verif_raw()
+    }
+}
+
+#[cfg(az65_verif)]
+impl MetaInterner {
+    pub fn verif_buffers(&self) -> Vec<(usize, usize, usize)> {
+        self.inner.verif_buffers()
+    }
+}
+
 #[cfg(test)]
 mod tests {
     use super::*;
